@@ -17,7 +17,7 @@ open OttoVerif.C17
 def GlobalProtoOK (h : Heap) (roots : Roots) : Prop :=
   ∃ go p, look roots.globalObject h = some (.obj go) ∧ go.proto = some p ∧ roots.globals[objectPrototypeIx]? = some p
 
-def objRoots (roots : Roots) : List Addr := roots.globalObject :: roots.globals
+def objRoots (roots : Roots) : List Addr := roots.globalObject :: (roots.globals ++ [roots.eval])
 
 /-- everything reachable from the object roots was memoised (= cloned) -/
 theorem reach_memo {r : Nat} {h : Heap} {base : Nat} {roots : Roots} {c : Cloned}
@@ -50,11 +50,12 @@ theorem clone_iso {r : Nat} {h : Heap} {base fuel : Nat} {roots : Roots} {c : Cl
     (∀ a, Reach h (objRoots roots) a → base ≤ c.phi a) ∧
     c.roots.globalObject = c.phi roots.globalObject ∧
     c.roots.globals = roots.globals.map c.phi ∧
+    c.roots.eval = c.phi roots.eval ∧
     look c.roots.globalStash c.out = some (.ost r none c.roots.globalObject) := by
   have F := cloneRuntime_facts hc
   have hmem := reach_memo F
   have hphi : ∀ a y, look a c.memo = some y → c.phi a = y := fun a y h => by simp [Cloned.phi, h]
-  refine ⟨?_, ?_, ?_, F.gObj, F.globals, F.gStash.1⟩
+  refine ⟨?_, ?_, ?_, F.gObj, F.globals, F.evalR, F.gStash.1⟩
   · intro a b ha hb hab
     cases hma : look a c.memo with
     | none => exact absurd hma (hmem a ha)
@@ -86,29 +87,11 @@ theorem clone_iso {r : Nat} {h : Heap} {base fuel : Nat} {roots : Roots} {c : Cl
     | none => exact absurd hma (hmem a ha)
     | some y => rw [hphi a y hma]; exact (F.range a y hma).1
 
-theorem findProp_propsMap (f : Nat → Nat) (name : String) (ps : List PropE) :
-    findProp name (propsMap f ps) = (findProp name ps).map (fun p => { p with val := p.val.map f }) := by
-  induction ps with
-  | nil => rfl
-  | cons p ps ih =>
-    simp only [propsMap, findProp]
-    by_cases hn : p.name = name
-    · simp [hn]
-    · simp [hn, ih]
-
-/-- **C17.clone_eval_root** — outside the region `eval_rebound` (the global object's own `eval` is
-    the data property holding `rt.eval`) the copy's `rt.eval` is the image of the original's. -/
+/-- **C17.clone_eval_root** — the copy's `rt.eval` is the image of the original's, whatever the
+    script did to the global `eval` property (deleted it, overwrote it, made it an accessor). -/
 theorem clone_eval_root {r : Nat} {h : Heap} {base fuel : Nat} {roots : Roots} {c : Cloned}
-    (hc : cloneRuntime r h base fuel roots = .ok c)
-    (go : Obj) (p : PropE) (hgo : look roots.globalObject h = some (.obj go))
-    (hp : findProp "eval" go.props = some p) (hv : p.val = .data (.ref roots.eval)) :
-    c.roots.eval = c.phi roots.eval := by
-  have F := cloneRuntime_facts hc
-  obtain ⟨go', nm, md, hgo', he⟩ := F.evalP
-  rw [hgo] at hgo'; cases hgo'
-  rw [findProp_propsMap, hp] at he
-  simp [hv, PVal.map, Val.map] at he
-  exact he.2.2.symm
+    (hc : cloneRuntime r h base fuel roots = .ok c) : c.roots.eval = c.phi roots.eval :=
+  (cloneRuntime_facts hc).evalR
 
 /-- **C17.clone_disjoint** — every node `Copy()` allocates lies at a fresh address and every
     reference stored in it is a fresh address: the clone holds NO pointer into the source heap.
@@ -164,26 +147,7 @@ theorem clone_roots_fresh {r : Nat} {h : Heap} {base fuel : Nat} {roots : Roots}
   · rw [F.globals] at ha
     obtain ⟨a0, ha0, rfl⟩ := List.mem_map.mp ha
     exact hphi _ (F.rootsIn _ (by simp [ha0]))
-  · -- eval: a reference stored in the cloned global object
-    obtain ⟨go, nm, md, hgo, he⟩ := F.evalP
-    cases hm : look roots.globalObject c.memo with
-    | none => exact absurd hm (F.rootsIn _ (by simp))
-    | some g' =>
-      obtain ⟨n, hn, ho, _⟩ := F.image _ g' hm
-      rw [hgo] at hn; cases hn
-      simp only [if_true] at ho
-      have hsep := (F.sep g' _ (look_mem ho)).2
-      apply hsep
-      have hin : c.roots.eval ∈ propsRefs (propsMap c.phi go.props) := by
-        generalize propsMap c.phi go.props = ps at he
-        induction ps with
-        | nil => simp [findProp] at he
-        | cons p ps ih =>
-          simp only [findProp] at he
-          by_cases hn : p.name = "eval"
-          · simp [hn] at he; subst he; simp [propsRefs, PVal.refs, Val.refs]
-          · simp [hn] at he; simp [propsRefs, ih he]
-      simp [setProto, Node.map, Node.refs, hin]
+  · rw [F.evalR]; exact hphi _ (F.rootsIn _ (by simp))
   · exact F.gStash.2
 
 /-- **C17.copy_unreachable_from_original / original_unreachable_from_copy** — in the joint heap
@@ -446,24 +410,7 @@ theorem copy_chain {r : Nat} {h : Heap} {base fuel : Nat} {roots : Roots} {c : C
   · rw [F.globals] at ha
     obtain ⟨a0, ha0, rfl⟩ := List.mem_map.mp ha
     exact hphi _ (F.rootsIn _ (by simp [ha0]))
-  · obtain ⟨go, nm, md, hgo, he⟩ := F.evalP
-    cases hm : look roots.globalObject c.memo with
-    | none => exact absurd hm (F.rootsIn _ (by simp))
-    | some g' =>
-      obtain ⟨n, hn, ho, _⟩ := F.image _ g' hm
-      rw [hgo] at hn; cases hn
-      simp only [if_true] at ho
-      apply F.refsLt g' _ (look_mem ho)
-      have hin : c.roots.eval ∈ propsRefs (propsMap c.phi go.props) := by
-        generalize propsMap c.phi go.props = ps at he
-        induction ps with
-        | nil => simp [findProp] at he
-        | cons p ps ih =>
-          simp only [findProp] at he
-          by_cases hn : p.name = "eval"
-          · simp [hn] at he; subst he; simp [propsRefs, PVal.refs, Val.refs]
-          · simp [hn] at he; simp [propsRefs, ih he]
-      simp [setProto, Node.map, Node.refs, hin]
+  · rw [F.evalR]; exact hphi _ (F.rootsIn _ (by simp))
   · exact F.outLt _ _ F.gStash.1
 
 /-- **C17.sep_preserved_by_copy** — two separated runtimes stay separated when a third runtime is
@@ -582,41 +529,39 @@ theorem payload_cases_expected : Gen.payloadCases.map (·.1) =
 theorem payload_types_handled :
     Gen.payloadTypes.all (fun t => !t.2 || (Gen.payloadCases.map (·.1)).contains t.1 || sharedPayloads.contains t.1) = true := by decide
 
-/-! ### kernel-checked witnesses of the deviation regions (each replayed on the real code by the harness) -/
+/-! ### histories that used to break `Copy()`: the cloner now succeeds on them (kernel-checked) -/
 
 /-- a minimal runtime: 0 = global object {eval: @1}, 1 = eval, 2 = global stash -/
 def hOk : Heap := [(0, gobj [⟨"eval", 0o101, .data (.ref 1)⟩]), (1, fnObj "eval"), (2, .ost 0 none 0)]
 def rOk : Roots := { globalObject := 0, globals := [], eval := 1, globalStash := 2 }
 
-def isPanic {α : Type} : Res α → Bool
-  | .panic => true
+def isOk {α : Type} : Res α → Bool
+  | .ok _ => true
   | _ => false
 
-/-- non-vacuity: on the minimal runtime the cloner succeeds -/
-example : isPanic (cloneRuntime 1 hOk 3 10 rOk) = false := by decide
+example : isOk (cloneRuntime 1 hOk 3 10 rOk) = true := by decide
 
-/-- Dev `eval_rebound` (a): `delete eval` – clone.go:74 asserts `.value.(Value)` on a missing property -/
+/-- `delete eval` -/
 def hEvalDeleted : Heap := [(0, gobj []), (1, fnObj "eval"), (2, .ost 0 none 0)]
-theorem dev_eval_deleted_panics : isPanic (cloneRuntime 1 hEvalDeleted 3 10 rOk) = true := by decide
+example : (match cloneRuntime 1 hEvalDeleted 3 10 rOk with | .ok c => c.roots.eval == c.phi 1 && c.roots.eval == 5 | _ => false) = true := by decide
 
-/-- Dev `eval_rebound` (b): `eval = 1` – `.value.(*object)` on a number -/
+/-- `eval = 1` -/
 def hEvalNumber : Heap := [(0, gobj [⟨"eval", 0o111, .data (.prim "i1")⟩]), (1, fnObj "eval"), (2, .ost 0 none 0)]
-theorem dev_eval_number_panics : isPanic (cloneRuntime 1 hEvalNumber 3 10 rOk) = true := by decide
+example : isOk (cloneRuntime 1 hEvalNumber 3 10 rOk) = true := by decide
 
-/-- Dev `eval_rebound` (c): `eval = parseInt` – the copy's `rt.eval` becomes the clone of parseInt,
-    the original's stays the builtin: the copy is not the image of the original -/
+/-- `var e = eval; eval = parseInt`: the copy's `rt.eval` is the image of the builtin, not of parseInt -/
 def hEvalOther : Heap := [(0, gobj [⟨"eval", 0o111, .data (.ref 3)⟩, ⟨"e", 0o111, .data (.ref 1)⟩]), (1, fnObj "eval"), (2, .ost 0 none 0), (3, fnObj "parseInt")]
-theorem dev_eval_other_not_image :
-    (match cloneRuntime 1 hEvalOther 4 10 rOk with
-     | .ok c => c.roots.eval == (look 1 c.memo).getD 0
-     | _ => true) = false := by decide
+example : (match cloneRuntime 1 hEvalOther 4 10 rOk with
+     | .ok c => c.roots.eval == (look 1 c.memo).getD 0 && c.roots.eval != (look 3 c.memo).getD 0
+     | _ => false) = true := by decide
 
-/-- Dev `fnstash_nil_arguments`: a function stash without an arguments object (a parameter named
-    `arguments`) – stash.go:259 `c.object(nil)` dereferences nil -/
+/-- a function stash without an arguments object (a parameter named `arguments`) -/
 def hNoArgs : Heap :=
   [(0, gobj [⟨"eval", 0o101, .data (.ref 1)⟩, ⟨"f", 0o111, .data (.ref 3)⟩]), (1, fnObj "eval"), (2, .ost 0 none 0),
    (3, .obj { rt := 0, cls := "Function", klass := "object", ext := true, proto := none, props := [], payload := .nodeFn "n0" (some 4) }),
    (4, .fn 0 (some 2) [⟨"arguments", 4, .prim "i1"⟩] none [])]
-theorem dev_nil_arguments_panics : isPanic (cloneRuntime 1 hNoArgs 5 10 rOk) = true := by decide
+example : (match cloneRuntime 1 hNoArgs 5 10 rOk with
+     | .ok c => look (c.phi 4) c.out == some (.fn 1 (some (c.phi 2)) [⟨"arguments", 4, .prim "i1"⟩] none [])
+     | _ => false) = true := by decide
 
 end OttoVerif.C17.Thm
